@@ -255,6 +255,7 @@ func streamConc(t *testing.T, o *Out, race bool) {
 		}
 		nreq := 4 + r.Intn(12)
 		reqs := env.concRequests(r, nreq)
+		o.Pre("conc", fmt.Sprintf("c%d", i), fmt.Sprintf("%d %d", len(reqs), i))
 		// every third round: a multi-tenant registry (configuration chosen per request by a
 		// contextualizer); the requests of tenant A and of tenant B run side by side
 		if i%3 == 2 {
